@@ -433,6 +433,11 @@ Upd(s0, e) ==
                                      !.lp = IF (e.o # "ok" \/ Lin(s, e.p).cost > s.maxsize) /\ s.lp[e.k] = e.p THEN [s.lp EXCEPT ![e.k] = "none"] ELSE s.lp]
     [] e.ev = "snap" -> DoSnap(s, e)
     [] e.ev = "ticklocked" -> DoTickLocked(s, e)
+    \* C08 at cache level: every key was read once (so each entry's read event reaches the policy at most once), rings
+    \* filled while somebody else held the policy lock; afterwards hits reach the policy again
+    [] e.ev = "readbusy" -> Vif(Vif(Vif(s, e.dups > 0, "C08", "hit_delivered_to_the_policy_more_than_once"),
+                                    e.delivered > e.reads, "C08", "more_read_events_delivered_than_hits_made"),
+                                4 * e.later < e.reads2, "C08", "later_hits_do_not_reach_the_policy_after_reads_while_the_policy_lock_was_busy")
     [] e.ev = "badaccess" -> V(s, "C08", "read_event_applied_to_entry_recycled_for_another_key")
     [] e.ev = "hang" -> DoHang(s, e)
     [] e.ev = "end" -> DoEnd(s, e)
